@@ -6,3 +6,9 @@ add("C18", "proof",
     "No bound other than the machine width, both functions are loop-free, so this is a solver-discharged proof of the stated arithmetic facts about the real code.",
     "Stubs: math/bits.Mul64/Add64/Sub64 as 128/65-bit bit-vector terms. Assumes z3's QF_BV decision procedure is sound.",
     "symbolic execution of go/ssa + SMT (z3 bit-vectors), all paths, full 64-bit", "§5 C18")
+
+add("C09", "model_checking",
+    "Bounded symbolic execution of the real crash-relevant units: kState.FindView and (*Kernel).sendPHCheckResponse over full-width symbolic request heights/rounds and node positions (any state satisfying the kernel position invariant), "
+    "both shipped feedback mappers over every defined result constant, and further total-function harnesses (see evidence.harnesses). A reachable panic/nil-deref/index error or an undefined result is the violation; each is replayed natively before being reported.",
+    "Bounds and stubs per harness are in evidence (coverage.bounds, coverage.stubs). Whole-engine schedules, libp2p internals and OS resource exhaustion are outside the claim; option-construction (K7) and mirror end-to-end (K8) parts are listed in evidence only when their harnesses ran.",
+    "symbolic execution of go/ssa + SMT (z3), per-unit totality harnesses", "§5 C09")
